@@ -202,7 +202,14 @@ pub fn gen_history(r: &mut Rng, kind: &'static str, with_time: bool) -> History 
     } as usize;
     let mut flights: Vec<Flight> = (0..n_air)
         .map(|i| {
-            let addr = if r.chance(0.3) { 0x4840D0 + i as u32 } else { (r.next() & 0xFF_FFFF) as u32 };
+            // boundary addresses matter (an all-zero or all-ones address is still an address)
+            let addr = match r.below(20) {
+                0 => 0x000000,
+                1 => 0xFFFFFF,
+                2 => *r.pick(&[0x000001u32, 0x800000, 0x7FFFFF, 0x00FFFF, 0xFF0000]),
+                3..=8 => 0x4840D0 + i as u32,
+                _ => (r.next() & 0xFF_FFFF) as u32,
+            };
             // start inside (mostly) or outside the range circle
             let frac = match r.below(6) {
                 0 => 1.3,
@@ -223,6 +230,14 @@ pub fn gen_history(r: &mut Rng, kind: &'static str, with_time: bool) -> History 
             }
         })
         .collect();
+    {
+        let mut seen = std::collections::BTreeSet::new();
+        for f in flights.iter_mut() {
+            while !seen.insert(f.addr) {
+                f.addr = (f.addr + 1) & 0xFF_FFFF;
+            }
+        }
+    }
     let addrs: Vec<u32> = flights.iter().map(|f| f.addr).collect();
     let len = match kind {
         "long" => r.range(300, 1500),
@@ -325,6 +340,32 @@ pub fn gen_history(r: &mut Rng, kind: &'static str, with_time: bool) -> History 
     History { receiver, max_range, ops, kind }
 }
 
+/// A busy sky: hundreds to thousands of distinct addresses, a few non-position frames each
+/// (identification, velocity, other). Nothing may ever leave the tracked set without expiry.
+pub fn gen_crowd(r: &mut Rng) -> History {
+    let n = *r.pick(&[200usize, 300, 600, 1200, 2500]);
+    let base = (r.next() & 0xFF_0000) as u32;
+    let mut addrs: Vec<u32> = (0..n).map(|i| (base + (i as u32) * r.range(1, 3) as u32) & 0xFF_FFFF).collect();
+    addrs.sort_unstable();
+    addrs.dedup();
+    let cs = vec!["CROWD1".to_string(), "CROWD2".to_string()];
+    let mut ops = Vec::new();
+    for round in 0..r.range(1, 3) {
+        // arrival order differs from address order
+        let mut order = addrs.clone();
+        for i in (1..order.len()).rev() {
+            let j = r.below(i as u64 + 1) as usize;
+            order.swap(i, j);
+        }
+        for a in order {
+            let kind = if round == 0 { r.below(4) } else { r.below(2) };
+            let k = if kind == 3 { 3 } else { kind.min(1) };
+            ops.push(Op::Frame(other_es_frame(r, a, k, &cs)));
+        }
+    }
+    History { receiver: (52.0, 4.0), max_range: 500.0, ops, kind: "crowd" }
+}
+
 pub fn history_json(h: &History) -> Value {
     json!({
         "receiver": [h.receiver.0, h.receiver.1],
@@ -387,8 +428,18 @@ pub fn run_history(g: &Gillham, col: &mut Collector, h: &History, upto: usize) -
                         return None;
                     }
                 };
-                let snap = snapshot(&planes);
-                dis = model.step(&ev, added, &snap);
+                if h.kind == "crowd" && idx % 97 != 0 && idx + 1 != h.ops.len() {
+                    // busy-sky histories: cheap per-step checks, full snapshot comparison every 97 steps
+                    let empty = Snapshot::new();
+                    let mut d = model.step_without_comparison(&ev, added, &empty);
+                    if planes.len() != model.tracked().len() {
+                        d.push(vref::tracker::Disagreement { prop: "C12", clause: "tracked_set", detail: format!("{} aircraft tracked, {} distinct addresses were heard and none expired", planes.len(), model.tracked().len()) });
+                    }
+                    dis = d;
+                } else {
+                    let snap = snapshot(&planes);
+                    dis = model.step(&ev, added, &snap);
+                }
                 col.count("tracker_steps", 1);
                 match &ev {
                     Event::NonEs => col.class("ev:non_es"),
@@ -428,6 +479,7 @@ pub fn run_history(g: &Gillham, col: &mut Collector, h: &History, upto: usize) -
     col.count("model_ambiguous_followed_impl", st.ambiguous);
     col.count("model_pruned", st.pruned);
     col.count("model_duplicate_reports", st.duplicates);
+    col.count("model_readded_after_expiry", st.readded);
     Some((planes, processed))
 }
 
@@ -483,7 +535,10 @@ pub fn run(ctx: &Ctx) -> i32 {
     } else {
         par_units(ctx, &format!("trk-{}", ctx.prop), n_hist, |i, r, col, slot| {
             let kind = kinds[(i % 5) as usize];
-            let h = gen_history(r, kind, with_time);
+            // a few busy-sky histories per run (C12: the set only shrinks through expiry)
+            let crowd = !with_time && ctx.prop == "C12" && i % 300 == 7;
+            let h = if crowd { gen_crowd(r) } else { gen_history(r, kind, with_time) };
+            let kind = h.kind;
             slot.begin(|| format!("tracker history #{i} kind {kind}"));
             let planes = run_history(&ctx.g, col, &h, usize::MAX);
             if !with_time {
